@@ -153,6 +153,14 @@ func injectConsts(k *h.Case, g *spec.Gen, prog *spec.Program) []*constDef {
 		}
 		out[i] = c
 		k.Count("const_use_"+what, 1)
+		if (what == "command_arg" || what == "autovar_arg") && r.IntN(6) == 0 && (i+1 == len(out) || out[i+1] != "(") {
+			// the constant stands directly in front of a parenthesis (a constant naming a function-like macro, or
+			// followed by a parenthesised sub-expression): still a use of the constant
+			rest := append([]string{"(", []string{"MAP_ROUTE101", "2", "SPECIES_X"}[r.IntN(3)], ")"}, out[i+1:]...)
+			out = append(out[:i+1:i+1], rest...)
+			k.Count("const_use_directly_before_parenthesis", 1)
+			return out
+		}
 		if r.IntN(10) == 0 {
 			// a sign glued to the constant's name (`-LIMIT`): still a use of the constant. Only for constants whose
 			// value starts with an identifier, so that the written-out form `-VALUE` lexes the same way
